@@ -305,6 +305,9 @@ func (dec *decoder) decodeOneofInner(oneof j5reflect.Oneof) error {
 		// !type is an optional parameter, when the consumer sets it we validate
 		// it matches the type they actually sent.
 		if keyTokenStr == "!type" {
+			if constrainType != nil {
+				return newFieldError(keyTokenStr, "already set")
+			}
 			tok, err := dec.Token()
 			if err != nil {
 				return err
@@ -443,6 +446,9 @@ func (dec *decoder) decodeAny(prop j5reflect.Property) error {
 		// !type is an optional parameter, when the consumer sets it we validate
 		// it matches the type they actually sent.
 		if keyTokenStr == "!type" {
+			if constrainType != nil {
+				return newFieldError(keyTokenStr, "already set")
+			}
 			tok, err := dec.Token()
 			if err != nil {
 				return err
